@@ -282,6 +282,9 @@ var c14Setter = probe.Define("C14", "setter", func(t *rapid.T) c14SetIn { panic(
 func TestC14(t *testing.T) {
 	c := probe.NewCtx(t, "C14")
 	if c.Shard == 0 {
+		endurance(c, "C14", "aka-setattr-gaps", 140000)
+	}
+	if c.Shard == 0 {
 		for _, ty := range []uint8{model.AT_RAND, model.AT_AUTN, model.AT_MAC, model.AT_KDF, model.AT_RES} {
 			for n := 0; n <= 300; n++ {
 				c14Setter.Eval(c, c14SetIn{Type: ty, Size: n})
